@@ -44,6 +44,7 @@ import (
 	"github.com/nspcc-dev/neofs-node/verif/lib/enumx"
 	"github.com/nspcc-dev/neofs-node/verif/lib/ev"
 	sw "github.com/nspcc-dev/neofs-node/verif/worlds/svcworld"
+	neofsecdsa "github.com/nspcc-dev/neofs-sdk-go/crypto/ecdsa"
 	"github.com/nspcc-dev/neofs-sdk-go/object"
 	"go.uber.org/zap"
 	grpccodes "google.golang.org/grpc/codes"
@@ -79,10 +80,22 @@ type tcase struct {
 	// variant "allowed-key-field-changed" (every leaf field of the request body x every mutation,
 	// applied after signing with the allowed key)
 	Op string // change | set | clear | append | replace-element | drop-element
+	// Prefix: methods of correctly signed requests served by the SAME server instance before this
+	// request (authorisation must be a function of this request only). Variant "replayed-signature"
+	// re-uses the Signature of Prefix[From] on this request (other RPC, or the same RPC with the body
+	// changed by Field/Op).
+	Prefix []string
+	From   int
 }
 
 func (c tcase) String() string {
 	s := fmt.Sprintf("%s.%s variant=%s ready=%v", c.Server, c.Method, c.Variant, c.Ready)
+	if len(c.Prefix) > 0 {
+		s = fmt.Sprintf("after valid %v: ", c.Prefix) + s
+		if c.Variant == "replayed-signature" {
+			s += fmt.Sprintf(" (signature of valid request #%d)", c.From)
+		}
+	}
 	if c.Op != "" {
 		return s + fmt.Sprintf(" field=%s mutation=%s", c.Field, c.Op)
 	}
@@ -422,7 +435,7 @@ type signedMessage interface {
 
 // buildRequest returns the request of the variant; ok=false when the variant cannot be expressed
 // for this request type (a body without fields cannot be changed after signing).
-func buildRequest(c tcase, sig sw.Signature, ownKeyLabel string, shardID []byte, objAddr, scratch string) (req any, ok bool, err error) {
+func buildRequest(c tcase, sig sw.Signature, ownKeyLabel string, shardID []byte, objAddr, scratch string, prior []any) (req any, ok bool, err error) {
 	rv := reflect.New(sig.Req.Elem())
 	bf := rv.Elem().FieldByName("Body")
 	if !bf.IsValid() {
@@ -470,6 +483,27 @@ func buildRequest(c tcase, sig sw.Signature, ownKeyLabel string, shardID []byte,
 			}
 			return req, false, fmt.Errorf("%s: mutation %s of field %s does not exist for the built request", c.Method, c.Op, c.Field)
 		}
+	case "replayed-signature":
+		if c.Field != "" {
+			var unsup []string
+			found := false
+			for _, fm := range fieldMutations(body.Interface().(proto.Message).ProtoReflect(), "", &unsup) {
+				if fm.Path == c.Field && fm.Op == c.Op {
+					fm.apply()
+					found = true
+					break
+				}
+			}
+			if !found {
+				return req, false, fmt.Errorf("%s: mutation %s of field %s does not exist", c.Method, c.Op, c.Field)
+			}
+		}
+		// copy the Signature message of the earlier, accepted request (key and value) as it is
+		ps := reflect.ValueOf(prior[c.From]).MethodByName("GetSignature").Call(nil)[0]
+		ns := reflect.New(ps.Type().Elem())
+		ns.Elem().FieldByName("Key").SetBytes(append([]byte(nil), ps.Elem().FieldByName("Key").Bytes()...))
+		ns.Elem().FieldByName("Sign").SetBytes(append([]byte(nil), ps.Elem().FieldByName("Sign").Bytes()...))
+		reflect.ValueOf(req).MethodByName("SetSignature").Call([]reflect.Value{ns})
 	case "allowed-key-one-byte-changed":
 		if err = sign(adminKey); err == nil {
 			k, s := sigOf()
@@ -499,7 +533,55 @@ func buildRequest(c tcase, sig sw.Signature, ownKeyLabel string, shardID []byte,
 	return req, true, err
 }
 
+// referenceAuthorised is the property's predicate evaluated on the request alone: it carries a
+// signature whose key is in the allow list and which verifies (ECDSA/SHA-512) over the request body.
+func referenceAuthorised(req any, allowed ...string) bool {
+	sg := reflect.ValueOf(req).MethodByName("GetSignature").Call(nil)[0]
+	if sg.IsNil() {
+		return false
+	}
+	key, val := sg.Elem().FieldByName("Key").Bytes(), sg.Elem().FieldByName("Sign").Bytes()
+	ok := false
+	for _, a := range allowed {
+		ok = ok || string(sw.Pub(a)) == string(key)
+	}
+	if !ok {
+		return false
+	}
+	data, err := req.(signedMessage).ReadSignedData(nil)
+	if err != nil {
+		return false
+	}
+	var pk neofsecdsa.PublicKey
+	if pk.Decode(key) != nil {
+		return false
+	}
+	return pk.Verify(data, val)
+}
+
+// servePrefix sends the correctly signed requests of c.Prefix to the server; each must pass the gate.
+func servePrefix(c tcase, srv any, iface reflect.Type, own string, shardID []byte, objAddr, scratch string) ([]any, error) {
+	var prior []any
+	for i, m := range c.Prefix {
+		pc := tcase{Server: c.Server, Method: m, Variant: "correct", Ready: true}
+		req, _, err := buildRequest(pc, sw.SignatureOf(iface, m), own, shardID, objAddr, scratch, nil)
+		if err != nil {
+			return nil, err
+		}
+		res, herr := sw.Invoke(srv, iface, m, []any{req})
+		if herr != nil {
+			return nil, herr
+		}
+		if res.Panic != nil || res.Err != nil && grpcstatus.Code(res.Err) == grpccodes.PermissionDenied {
+			return nil, fmt.Errorf("valid request #%d (%s) of the prefix was not accepted: %v %v", i, m, res.Err, res.Panic)
+		}
+		prior = append(prior, req)
+	}
+	return prior, nil
+}
+
 type outcome struct {
+	RefAuth  bool // reference predicate on the request
 	Code     string
 	Detail   string
 	Resp     int // response messages
@@ -516,7 +598,11 @@ func runSN(c tcase) (outcome, bool, error) {
 	}
 	defer w.close()
 	sig := sw.SignatureOf(snIface, c.Method)
-	req, ok, err := buildRequest(c, sig, sw.LocalNode, w.shardID, w.objAddr, w.scratch)
+	prior, err := servePrefix(c, w.srv, snIface, sw.LocalNode, w.shardID, w.objAddr, w.scratch)
+	if err != nil {
+		return outcome{}, true, err
+	}
+	req, ok, err := buildRequest(c, sig, sw.LocalNode, w.shardID, w.objAddr, w.scratch, prior)
 	if err != nil || !ok {
 		return outcome{}, ok, err
 	}
@@ -533,6 +619,7 @@ func runSN(c tcase) (outcome, bool, error) {
 	}
 	var o outcome
 	fillOutcome(&o, res)
+	o.RefAuth = referenceAuthorised(req, adminKey)
 	o.Effects = w.rec.Of("storage", "net", "state")
 	errs1, modes1 := w.shardState()
 	o.ErrDelta = errs1 - errs0
@@ -555,16 +642,22 @@ func runIR(c tcase) (outcome, bool, error) {
 	prm.SetNetworkManager(notary{rec})
 	srv := irsrv.New(prm, irsrv.WithAllowedKeys([][]byte{sw.Pub(adminKey)}))
 	sig := sw.SignatureOf(irIface, c.Method)
-	req, ok, err := buildRequest(c, sig, "ir-node", nil, "", "")
+	prior, err := servePrefix(c, srv, irIface, "ir-node", nil, "", "")
+	if err != nil {
+		return outcome{}, true, err
+	}
+	req, ok, err := buildRequest(c, sig, "ir-node", nil, "", "", prior)
 	if err != nil || !ok {
 		return outcome{}, ok, err
 	}
+	rec.Reset()
 	res, herr := sw.Invoke(srv, irIface, c.Method, []any{req})
 	if herr != nil {
 		return outcome{}, true, herr
 	}
 	var o outcome
 	fillOutcome(&o, res)
+	o.RefAuth = referenceAuthorised(req, adminKey, "ir-node")
 	o.Effects = rec.Of("notary")
 	return o, true, nil
 }
@@ -621,6 +714,23 @@ func main() {
 		}
 		// the IR server documents its own key as part of the white list; the storage node does not
 		authorised := c.Variant == "correct" || c.Variant == "server-own-key" && c.Server == "ir"
+		if c.Variant == "replayed-signature" {
+			// e.g. the signature of a request with an empty body is a valid signature of every other
+			// request with an empty body: the verdict is the reference predicate on THIS request
+			authorised = o.RefAuth
+		} else if authorised != o.RefAuth {
+			fatal("%s: the reference predicate says authorised=%v", c, o.RefAuth)
+		}
+		if len(c.Prefix) > 0 {
+			key = "after-valid-request:" + key
+			if c.Variant == "replayed-signature" {
+				kind := "other-rpc"
+				if c.Field != "" {
+					kind = "same-rpc-other-body"
+				}
+				key = fmt.Sprintf("after-valid-request:%s.%s:replayed-signature-of-accepted-request:%s", c.Server, c.Method, kind)
+			}
+		}
 		if authorised {
 			if o.Code == grpccodes.PermissionDenied.String() || o.Code == "panic" {
 				r.Violation("authorised-request-rejected:"+key, desc, c)
@@ -711,6 +821,44 @@ func main() {
 	for _, m := range irMethods {
 		addFieldCases("ir", irIface, m)
 	}
+	// sequences on ONE server instance: valid request(s), then every kind of unauthorised request
+	nSeq := len(cases)
+	addSeq := func(server string, iface reflect.Type, methods []string, depth3 bool) {
+		var prefixes [][]string
+		for _, a := range methods {
+			prefixes = append(prefixes, []string{a})
+			if depth3 {
+				for _, b := range methods {
+					prefixes = append(prefixes, []string{a, b})
+				}
+			}
+		}
+		for _, pre := range prefixes {
+			for _, m := range methods {
+				for from := range pre {
+					if m == pre[from] {
+						// same RPC, body changed in every possible way, signature of the accepted request
+						for _, fm := range fieldCases[server+"."+m] {
+							f, op, _ := strings.Cut(fm, ":")
+							cases = append(cases, tcase{Server: server, Method: m, Variant: "replayed-signature", Ready: true, Prefix: pre, From: from, Field: f, Op: op})
+						}
+					} else {
+						cases = append(cases, tcase{Server: server, Method: m, Variant: "replayed-signature", Ready: true, Prefix: pre, From: from})
+					}
+				}
+				if len(pre) == 1 {
+					for _, v := range []string{"no-signature", "unknown-key", "allowed-key-signature-corrupted", "allowed-key-claimed-signed-by-other"} {
+						cases = append(cases, tcase{Server: server, Method: m, Variant: v, Ready: true, Prefix: pre})
+					}
+				}
+			}
+		}
+	}
+	addSeq("storage", snIface, snMethods, r.Thorough())
+	addSeq("ir", irIface, irMethods, true)
+	nSeq = len(cases) - nSeq
+	r.Set("sequence_cases_on_a_shared_server", nSeq)
+
 	nFieldCases := 0
 	for _, v := range fieldCases {
 		nFieldCases += len(v)
@@ -767,7 +915,17 @@ func main() {
 	r.Set("outcome_classes", len(classes))
 	r.Set("outcome_class_counts", classes)
 	r.Set("authorised_variants", passed)
-	r.Rule("every exported method of both ControlServiceServer interfaces (reflection) x 7 signature variants x readiness {ready, not ready} (storage node), plus, for every method, every leaf field of the request body (walked through the protobuf descriptor, nested and repeated fields included) x every mutation of the class {change / set-when-unset / clear; repeated: append, replace-element, drop-element} applied after signing with the allowed key; request bodies built generically by field name/type; non-trivial = an unauthorised variant that was rejected with zero effects, or an authorised variant that passed the gate; distinct = distinct case tuple")
+	var crossValid []string
+	for k := range passed {
+		if strings.Contains(k, "variant=replayed-signature") {
+			crossValid = append(crossValid, k)
+		}
+	}
+	sort.Strings(crossValid)
+	// informational: the signature covers the body bytes only, not the RPC, so a signature accepted
+	// for one RPC is a valid signature of another RPC whose body encodes to the same bytes
+	r.Set("replayed_signatures_valid_by_the_reference_predicate", crossValid)
+	r.Rule("every exported method of both ControlServiceServer interfaces (reflection) x 7 signature variants x readiness {ready, not ready} (storage node), plus, for every method, every leaf field of the request body (walked through the protobuf descriptor, nested and repeated fields included) x every mutation of the class {change / set-when-unset / clear; repeated: append, replace-element, drop-element} applied after signing with the allowed key, plus sequences on ONE server instance: one valid request (two for the inner ring; two for the storage node in the thorough tier) of every method followed by, for every method, a request re-using the Signature of an accepted request (on another RPC, or on the same RPC with every body field mutation) and by the unsigned / unknown-key / corrupted / claimed-key variants, judged by the reference predicate 'key in the allow list and signature verifies over THIS body'; request bodies built generically by field name/type; non-trivial = an unauthorised variant that was rejected with zero effects, or an authorised variant that passed the gate; distinct = distinct case tuple")
 	r.Assume("effects are observed at the engine method entries (overlay hook, pure recorder), the replication transport / client constructor, NodeState and NotaryManager calls, as byte-level changes of the engine and scratch directories, and as shard mode / error counter changes",
 		"health status reads are not side effects (recorded, not required to be absent)",
 		"the inner ring server's own key is part of its white list by its documented constructor contract; the storage node's own key is not",
